@@ -404,6 +404,11 @@ func main() {
 						}
 						try(k.pk, msg, long, sig)
 						try(k.pk, msg, bytes.Repeat([]byte("z"), 1000), sig)
+						// where the context enters the signed string behind a ONE-octet length (ML-DSA: 0 || len || ctx || msg), a 256-byte
+						// context with the length wrapped to 0 is the honest empty-context signature of ctx || msg
+						if sw, ok := k.sign(append(append([]byte{}, long...), msg...), nil); ok {
+							try(k.pk, msg, long, sw)
+						}
 					case "ctx-dropped":
 						if v.name != "ed25519.ctx" || true {
 							try(k.pk, msg, nil, sig)
